@@ -5,16 +5,10 @@ REGEN = dict(_C06_REGEN)
 
 PROP = dict(
     level='proof',
-    regen=['consts', 'go2lean:basetype', 'go2lean:proto'],
-    go2lean_diff=['Basetype', 'Proto'],
-    theorems=['Fit.C10.C10_validate_iff_spec', 'Fit.C10.C10_validate_filter', 'Fit.C10.C10_post', 'Fit.C10.C10_post_v1', 'Fit.C10.C10_def_sizes_are_bytes', 'Fit.C10.C10_reject', 'Fit.C10.C10_reject_batch', 'Fit.C10.C10_gate_no_panic', 'Fit.C10.C10_accept_batch', 'Fit.C10.C10_idempotent_partial', 'Fit.C10.C10_idempotent_full_fails_rescale',
-              # tie by translation (FitProps/C10Go2Lean.lean, notes/go2lean.md)
-              'Fit.C10.C10_go2lean_size', 'Fit.C10.C10_go2lean_valid',
-              'Fit.C10.C10_go2lean_validator', 'Fit.C10.C10_go2lean_version'],
+    regen=['consts'],
+    theorems=['Fit.C10.C10_validate_iff_spec', 'Fit.C10.C10_validate_filter', 'Fit.C10.C10_post', 'Fit.C10.C10_post_v1', 'Fit.C10.C10_def_sizes_are_bytes', 'Fit.C10.C10_reject', 'Fit.C10.C10_reject_batch', 'Fit.C10.C10_gate_no_panic', 'Fit.C10.C10_accept_batch', 'Fit.C10.C10_idempotent_partial', 'Fit.C10.C10_idempotent_full_fails_rescale'],
     families=[dict(name='validate', prop=True), dict(name='proto-validate', prop=True)],
     trusted_base=STD_TRUST + [
-        "translators/go2lean (Go→Lean for a small subset of Go, notes/go2lean.md) re-translates the conditions of proto.Validator (proto/validator.go) and proto.Version (proto/version.go) from the current source on every run; the agreement theorems *_go2lean_* state that the translated functions equal the hand-written model functions for all arguments; trusted: the translator's rendering of the subset (go/types computes constants and types) and FitModel/GoPrelude.lean",
-        "translators/go2lean (Go→Lean for a small subset of Go, notes/go2lean.md) re-translates BaseType.Size / Valid from the current source on every run; the agreement theorems *_go2lean_* state that the translated functions equal the hand-written model functions for all arguments; trusted: the translator's rendering of the subset (go/types computes constants and types) and FitModel/GoPrelude.lean",
         "scaleoffset.DiscardValue on float64-typed values (binary64 arithmetic + conversion, C12) is a parameter of the model; the driver instantiates it with the results of the real function carried in each operation line (dv: table)",
         "what Factory.CreateField returns for native-field overrides is carried in the operation line (fac: table) and checked against the standard factory by the harness",
         "the in-place swap compaction of Validate is modelled by its effect (the kept fields in order) and tied by correspondence (0..300 fields x keep patterns)",
@@ -28,3 +22,15 @@ TEXT = dict(
     text='C10: accepted messages satisfy the protocol limits, unwritable ones are rejected, validation = filter/map, idempotence (partial), definition sizes are bytes; no panic for any message (nil FieldBase under protocol 1.0, F11, was reported by this check and is repaired in /repo: fixed entry KF-C10-1); an accepted message is never empty (a message of which no field and no developer field survives was accepted as the empty message; reported by this check and repaired in /repo: fixed entry KF-C10-3).',
     note='Trusted: Lean kernel; consts translator; line protocol; DiscardValue arithmetic and factory look-ups are inputs of the model (carried in the line, produced by the real code).',
 )
+
+# --- tie by translation (translators/go2lean, notes/go2lean.md; agreement theorems in lean/FitProps/C10Go2Lean.lean).
+# Kept as a separate block so that it never collides with edits of the dictionary above.
+PROP['regen'] = PROP['regen'] + ['go2lean:basetype', 'go2lean:proto']
+PROP['go2lean_diff'] = ['Basetype', 'Proto']      # lean/Go2LeanDiff/<Topic>.lean: search for a differing argument when an agreement theorem breaks
+PROP['theorems'] = PROP['theorems'] + [
+    'Fit.C10.C10_go2lean_size',
+    'Fit.C10.C10_go2lean_valid',
+    'Fit.C10.C10_go2lean_validator',
+    'Fit.C10.C10_go2lean_version']
+PROP['trusted_base'] = PROP['trusted_base'] + [
+    "translators/go2lean (Go→Lean for a small subset of Go, notes/go2lean.md) re-translates BaseType.Size / Valid, the conditions of proto.Validator (proto/validator.go) and proto.Version (proto/version.go) from the current source on every run; the agreement theorems *_go2lean_* state that the translated functions equal the hand-written model functions for all arguments; trusted: the translator's rendering of the subset (go/types computes constants and types) and FitModel/GoPrelude.lean"]
